@@ -26,7 +26,7 @@ theorem io_get_result_eq (k : GenFn.IoKind_kind) (res : Int) (errno : Nat) :
       some (verdictGen (IoPool.getResult (decide (k = .Read)) res errno)) := by
   unfold GenFn.io_get_result IoPool.getResult IoPool.PAGE_SIZE
   by_cases hk : k = .Read <;> by_cases h0 : res = 0 <;> by_cases hp : res = 4096 <;> by_cases hm : res = -1 <;>
-    by_cases he : errno = IoPool.EINTR <;> simp [hk, h0, hp, hm, he, verdictGen] <;> omega
+    by_cases he : errno = IoPool.EINTR <;> simp [hk, h0, hp, hm, he, verdictGen, @eq_comm Int 0 res, @eq_comm Int 4096 res, @eq_comm Int (-1) res] <;> omega
 
 /-! ## struct results -/
 
@@ -43,6 +43,6 @@ open Wal in
 theorem pd_join_eq (a b : PageDiff) :
     GenFn.pd_join a.w0 a.w1 b.w0 b.w1 = some ((a.join b).w0, (a.join b).w1) := by
   unfold GenFn.pd_join PageDiff.join
-  rfl
+  first | rfl | (simp only [Nat.or_comm b.w0, Nat.or_comm b.w1])
 
 end Nomt.GenFnCheck
